@@ -6,6 +6,8 @@ def run(ctx):
     accept.rule_no_extension_only_stable(ctx)
     from . import splits
     splits.rule_split_contents(ctx)
+    from . import invariance
+    invariance.rule_component_traversal(ctx)
     accept.rule_stable_unsat(ctx, 'extension')
     provenance.rule_argument_provenance(ctx)
     provenance.rule_ownership(ctx)
